@@ -287,9 +287,17 @@ class GlueSerializer(object):
         if obj is self._main:
             return '__main__'
         elif hasattr(obj, 'label'):
-            return self._disambiguate(obj.label)
+            name = obj.label
         else:
-            return self._disambiguate(type(obj).__name__)
+            name = type(obj).__name__
+        name = self._disambiguate(name)
+        # String literals are written as 'st__<value>' (see id/do) and this
+        # prefix is how the un-serializer tells them from object names, so
+        # a name must never start with it (this also covers a label 'st_'
+        # that is disambiguated to 'st__0').
+        if isinstance(name, str) and name.startswith('st__'):
+            name = self._disambiguate('_' + name)
+        return name
 
     def id(self, obj):
         """
